@@ -13,14 +13,17 @@ from ..sysmc.world import AUTHOR
 
 PROP = 'C16'
 PR1, PR2 = 'bugfix/TEST-1', 'bugfix/TEST-2'
-PASSWORDS = ['p@ss:w/rd?&=x', 'plainpassword', 'a\'b"c $(x) ;|', 'pässwörd€']
+PASSWORDS = ['p@ss: w/rd?&=x +y', 'plainpassword', 'a\'b"c $(x) ;|',
+             'pässwörd€', 'correct horse']
 
 
-def spec(name, script, queue, level, password, fault_steps=None):
+def spec(name, script, queue, level, password, fault_steps=None,
+         flavour='github'):
     return {'driver': 'script', 'faults': 'c16', 'name': name,
             'config': {'layout': 'D2', 'queue': queue, 'skip_queue': False,
                        'options': BYPASS_REVIEW, 'cred': True,
-                       'password': password, 'log_level': level},
+                       'password': password, 'log_level': level,
+                       'cred_flavour': flavour},
             'init': [['open', PR1, 'development/4.3']],
             'script': script, 'fault_steps': fault_steps,
             'monitors': [], 'max_depth': len(script) + 1}
@@ -43,7 +46,7 @@ def specs(tier):
         return [spec('c16-queue-DEBUG', QUEUE_SCRIPT, True, 'DEBUG',
                      PASSWORDS[0]),
                 spec('c16-noq-INFO', NOQ_SCRIPT, False, 'INFO', PASSWORDS[0],
-                     fault_steps=[2, 5])]
+                     fault_steps=[2, 5], flavour='bitbucket')]
     out = []
     for pw_i, pw in enumerate(PASSWORDS):
         for level in ('DEBUG', 'INFO'):
@@ -52,6 +55,8 @@ def specs(tier):
                             pw))
             out.append(spec('c16-noq-' + tag, NOQ_SCRIPT, False, level, pw))
             if pw_i == 0:
+                out.append(spec('c16-noq-bb-' + tag, NOQ_SCRIPT, False, level,
+                                pw, flavour='bitbucket'))
                 out.append(spec('c16-decline-' + tag, DECLINE_SCRIPT, False,
                                 level, pw))
                 out.append(spec('c16-admin-' + tag, ADMIN_SCRIPT, True,
@@ -73,9 +78,9 @@ def run(tier, seed, workers=None):
              'incl. tracebacks, fd 1/2, job status/details/as_json, '
              '/api/jobs payload, status page (html, txt), comments; '
              'distinct_nontrivial = fault runs',
-        assumptions=['clone URL carries robot:<quote_plus(password)> and is '
-                     'mapped to the local bare repository with '
-                     'url.<path>.insteadOf',
+        assumptions=['the clone URL is the one the real GitHub / Bitbucket '
+                     'Repository.git_url builds from the password, mapped to '
+                     'the local bare repository with url.<path>.insteadOf',
                      'sentinels: raw, quote_plus and quote forms of the '
                      'password'])
     cr.coverage['evaluations'] = cr.coverage['transitions'] + \
